@@ -191,26 +191,26 @@ theorem rangeFrom_get (lo : Int) (n i : Nat) (h : i < (rangeFrom lo n).length) :
       rw [ih]; omega
 
 /-- the loop produces one process per number, in order, each by `mkProc` on that number -/
-theorem procLoop_spec (cx : Ctx) (kind : PKind) (sec : Section) (pre : Pre) (E : Exps) (nums : List Int) (ps : List PConfig)
-    (h : procLoop cx kind sec pre E nums = .ok ps) :
+theorem procLoop_spec (cx : Ctx) (kind : PKind) (sec : Section) (pre : Pre) (s : XS) (nums : List Int) (ps : List PConfig)
+    (h : procLoop cx kind sec pre s nums = .ok ps) :
     ps.length = nums.length ∧
-    ∀ i (hi : i < ps.length) (hn : i < nums.length), ∃ Ei Ei', mkProc cx kind sec pre Ei nums[i] = .ok (ps[i], Ei') := by
-  induction nums generalizing E ps with
+    ∀ i (hi : i < ps.length) (hn : i < nums.length), ∃ si si', mkProc cx kind sec pre si nums[i] = .ok (ps[i], si') := by
+  induction nums generalizing s ps with
   | nil => simp [procLoop] at h; subst h; simp
   | cons n rest ih =>
     simp only [procLoop] at h
     split at h
     · contradiction
-    · rename_i p E' hmk
+    · rename_i p s' hmk
       split at h
       · contradiction
       · rename_i ps' hrest
         injection h with h; subst h
-        obtain ⟨hl, hall⟩ := ih E' ps' hrest
+        obtain ⟨hl, hall⟩ := ih s' ps' hrest
         refine ⟨by simp [hl], ?_⟩
         intro i hi hn
         cases i with
-        | zero => exact ⟨E, E', by simpa using hmk⟩
+        | zero => exact ⟨s, s', by simpa using hmk⟩
         | succ j =>
           simp only [List.getElem_cons_succ]
           exact hall j (by simpa using hi) (by simpa using hn)
@@ -275,7 +275,7 @@ theorem parsePre_fields (cx : Ctx) (sec : Section) (E : Exps) (pre : Pre) (h : p
 theorem processesUnsorted_ok (cx : Ctx) (kind : PKind) (sec : Section) (suffix g : String) (ps : List PConfig)
     (h : processesUnsorted cx kind sec suffix g = .ok ps) :
     ∃ pn pre, processOrGroupName suffix = .ok pn ∧ parsePre cx sec (commonExps cx pn g) = .ok pre ∧
-      checkPre pre = .ok () ∧ procLoop cx kind sec pre (commonExps cx pn g) (procNums pre) = .ok ps := by
+      checkPre pre = .ok () ∧ procLoop cx kind sec pre (preLoopXS cx pre (commonExps cx pn g)) (procNums pre) = .ok ps := by
   simp only [processesUnsorted, bind, Except.bind] at h
   repeat (split at h <;> try contradiction)
   rename_i _ pn h1 _ pre h2 _ u h3
@@ -291,4 +291,149 @@ theorem isError_of_not_ok {α : Type} (x : Except String α) (h : ∀ a, x ≠ .
   | error e => exact ⟨e, rfl⟩
   | ok a => exact absurd rfl (h a)
 
+/-! ### the dictionaries of the numprocs loop: what the generated placement facts give -/
+
+theorem bind_ok {α β : Type} (x : Except String α) (f : α → Except String β) (r : β) :
+    (x >>= f) = .ok r ↔ ∃ a, x = .ok a ∧ f a = .ok r := by
+  cases x <;> simp [bind, Except.bind]
+
+/-- the state in front of the loop: `common_expansions` built, `expansions` not yet bound -/
+def freshXS (C : Exps) : XS := { common := C, cur := [], aliased := false }
+
+/-- GENERATED FACT USED: no statement binds `expansions` in front of the loop -/
+theorem preLoopXS_eq (cx : Ctx) (pre : Pre) (C : Exps) : preLoopXS cx pre C = freshXS C := by
+  simp only [preLoopXS, pfsPreLoop, List.foldl, freshXS]
+
+/-- GENERATED FACT USED: the first statement of the loop body binds `expansions` to a fresh copy of
+    `common_expansions`, so whatever the previous round left in `expansions` is gone -/
+theorem loopHead_fresh (cx : Ctx) (pre : Pre) (s : XS) (num : Int) :
+    loopHead cx pre s num = loopHead cx pre (freshXS s.common) num := by
+  simp only [loopHead, pfsLoopHead, List.foldl, applyStep, freshXS]
+
+theorem loopHead_common (cx : Ctx) (pre : Pre) (s : XS) (num : Int) :
+    (loopHead cx pre s num).common = s.common ∧ (loopHead cx pre s num).aliased = false := by
+  simp [loopHead, pfsLoopHead, List.foldl, applyStep, XS.mut]
+
+/-- what the dictionary the loop body starts from binds: the ENV_ expansions first, then `numprocs` and
+    `process_num` of this round, then `common_expansions` (stated on lookups, so that the order in which the
+    source sets the two numbers does not matter) -/
+theorem loopHead_lookup (cx : Ctx) (pre : Pre) (s : XS) (num : Int) (k : String) :
+    (loopHead cx pre s num).cur.lookup k =
+      (cx.penv.reverse.lookup k <|> if k = "numprocs" then some (.i pre.numprocs) else if k = "process_num" then some (.i num)
+                                    else s.common.lookup k) := by
+  simp only [loopHead, pfsLoopHead, List.foldl, applyStep, XS.mut, lookup_dupdate, lookup_dset] <;>
+    (by_cases h1 : k = "numprocs" <;> by_cases h2 : k = "process_num" <;> simp [h1, h2])
+
+theorem mut_common (s : XS) (f : Exps → Exps) (ha : s.aliased = false) :
+    (s.mut f).common = s.common ∧ (s.mut f).aliased = false := by
+  simp [XS.mut, ha]
+
+theorem loopGet_common (cx : Ctx) (sec : Section) (opt : String) (s : XS) (r : CVal × XS)
+    (h : loopGet cx sec opt s = .ok r) (ha : s.aliased = false) : r.2.common = s.common ∧ r.2.aliased = false := by
+  simp only [loopGet, bind_ok] at h
+  obtain ⟨row, _, passes, _, r, _, v', _, h⟩ := h
+  simp only [pure, Except.pure] at h
+  injection h with h
+  subst h
+  dsimp only
+  split
+  · exact mut_common s _ ha
+  · exact ⟨rfl, ha⟩
+
+theorem logSet_common (cx : Ctx) (sec : Section) (k : String) (s : XS) (r : LogSet × XS)
+    (h : logSet cx sec s k = .ok r) (ha : s.aliased = false) : r.2.common = s.common ∧ r.2.aliased = false := by
+  simp only [logSet, bind_ok] at h
+  obtain ⟨a, h1, lf0, _, lf1, _, lf, _, b, h2, backups, _, m, h3, maxbytes, _, y, h4, syslog, _, h⟩ := h
+  obtain ⟨c1, a1⟩ := loopGet_common cx sec _ s a h1 ha
+  obtain ⟨c2, a2⟩ := loopGet_common cx sec _ a.2 b h2 a1
+  obtain ⟨c3, a3⟩ := loopGet_common cx sec _ b.2 m h3 a2
+  obtain ⟨c4, a4⟩ := loopGet_common cx sec _ m.2 y h4 a3
+  simp only [pure, Except.pure] at h
+  injection h with h
+  subst h
+  exact ⟨by dsimp only; rw [c4, c3, c2, c1], a4⟩
+
+theorem procBody_common (cx : Ctx) (kind : PKind) (sec : Section) (pre : Pre) (s : XS) (r : PConfig × XS)
+    (h : procBody cx kind sec pre s = .ok r) (ha : s.aliased = false) : r.2.common = s.common ∧ r.2.aliased = false := by
+  simp only [procBody, bind_ok] at h
+  obtain ⟨envStr, _, env, _, d, h1, dir, _, out, h2, err, h3, c, h4, co, _, cmd, _, nameX, _, name, _, h⟩ := h
+  have h0 : (if pfsWriteBack = true then s.mut (fun e => envExps e env) else s).common = s.common ∧
+            (if pfsWriteBack = true then s.mut (fun e => envExps e env) else s).aliased = false := by
+    split
+    · exact mut_common s _ ha
+    · exact ⟨rfl, ha⟩
+  obtain ⟨c1, a1⟩ := loopGet_common cx sec _ _ d h1 h0.2
+  obtain ⟨c2, a2⟩ := logSet_common cx sec _ _ out h2 a1
+  obtain ⟨c3, a3⟩ := logSet_common cx sec _ _ err h3 a2
+  obtain ⟨c4, a4⟩ := loopGet_common cx sec _ _ c h4 a3
+  simp only [pure, Except.pure] at h
+  injection h with h
+  subst h
+  exact ⟨by dsimp only; rw [c4, c3, c2, c1, h0.1], a4⟩
+
+/-- what the previous round left in `expansions` has no influence on this round -/
+theorem mkProc_fresh (cx : Ctx) (kind : PKind) (sec : Section) (pre : Pre) (s : XS) (num : Int) :
+    mkProc cx kind sec pre s num = mkProc cx kind sec pre (freshXS s.common) num := by
+  simp only [mkProc]
+  rw [loopHead_fresh]
+
+/-- a round never changes `common_expansions` -/
+theorem mkProc_common (cx : Ctx) (kind : PKind) (sec : Section) (pre : Pre) (s : XS) (num : Int) (r : PConfig × XS)
+    (h : mkProc cx kind sec pre s num = .ok r) : r.2.common = s.common := by
+  obtain ⟨hc, ha⟩ := loopHead_common cx pre s num
+  rw [← hc]
+  exact (procBody_common cx kind sec pre _ r h ha).1
+
+theorem procLoop_fresh (cx : Ctx) (kind : PKind) (sec : Section) (pre : Pre) (s : XS) (nums : List Int) :
+    procLoop cx kind sec pre s nums = procLoop cx kind sec pre (freshXS s.common) nums := by
+  cases nums with
+  | nil => rfl
+  | cons n rest => simp only [procLoop]; rw [mkProc_fresh]
+
+/-- every process of the loop is what the loop body yields when it runs FIRST for that number -/
+theorem procLoop_independent (cx : Ctx) (kind : PKind) (sec : Section) (pre : Pre) (s : XS) (nums : List Int) (ps : List PConfig)
+    (h : procLoop cx kind sec pre s nums = .ok ps) :
+    ∀ i (hi : i < ps.length) (hn : i < nums.length), ∃ s', mkProc cx kind sec pre (freshXS s.common) nums[i] = .ok (ps[i], s') := by
+  induction nums generalizing s ps with
+  | nil => intro i hi hn; simp at hn
+  | cons n rest ih =>
+    simp only [procLoop] at h
+    split at h
+    · contradiction
+    · rename_i p s' hmk
+      split at h
+      · contradiction
+      · rename_i ps' hrest
+        injection h with h; subst h
+        have hc : s'.common = s.common := mkProc_common cx kind sec pre s n (p, s') hmk
+        intro i hi hn
+        cases i with
+        | zero => exact ⟨s', by rw [← mkProc_fresh]; simpa using hmk⟩
+        | succ j =>
+          simp only [List.getElem_cons_succ]
+          rw [← hc]
+          exact ih s' ps' hrest j (by simpa using hi) (by simpa using hn)
+
+/-- leaving out the first `k` rounds does not change the remaining processes -/
+theorem procLoop_drop (cx : Ctx) (kind : PKind) (sec : Section) (pre : Pre) (s : XS) (nums : List Int) (ps : List PConfig)
+    (h : procLoop cx kind sec pre s nums = .ok ps) (k : Nat) :
+    procLoop cx kind sec pre (freshXS s.common) (nums.drop k) = .ok (ps.drop k) := by
+  induction k generalizing s nums ps with
+  | zero => simpa [← procLoop_fresh] using h
+  | succ k ih =>
+    cases nums with
+    | nil => simp only [procLoop] at h; injection h with h; subst h; simp [procLoop]
+    | cons n rest =>
+      simp only [procLoop] at h
+      split at h
+      · contradiction
+      · rename_i p s' hmk
+        split at h
+        · contradiction
+        · rename_i ps' hrest
+          injection h with h; subst h
+          have hc : s'.common = s.common := mkProc_common cx kind sec pre s n (p, s') hmk
+          simp only [List.drop_succ_cons]
+          rw [← hc]
+          exact ih s' rest ps' hrest
 end Sv.Config
